@@ -305,7 +305,13 @@ impl TempWs {
         if let Some(parent) = p.parent() {
             let _ = std::fs::create_dir_all(parent);
         }
-        std::fs::write(p, text).expect("write scratch file");
+        std::fs::write(&p, text).expect("write scratch file");
+        // every scratch file carries the same modification time, as after `cp -p`, `rsync -t`, a tar
+        // extraction or two writes within one tick of a coarse clock: what is on disk is the truth,
+        // whatever its time stamp says
+        if let Ok(f) = std::fs::File::options().write(true).open(&p) {
+            let _ = f.set_modified(std::time::UNIX_EPOCH + std::time::Duration::from_secs(1_600_000_000));
+        }
     }
     pub fn uri(&self, name: &str) -> String {
         format!("file://{}", self.path(name).display())
